@@ -138,6 +138,42 @@ theorem C04_cancel_noop (s : St) (b : Nat) (bt : Batch) (hb : s.batches.lookup b
     dbCommit_empty]
   exact ⟨trivial, trivial, trivial⟩
 
+theorem lookup_filter_ne {α : Type} (l : List (Nat × α)) (b b' : Nat) (hne : b' ≠ b) :
+    (l.filter (fun e => e.1 != b)).lookup b' = l.lookup b' := by
+  induction l with
+  | nil => rfl
+  | cons e t ih =>
+    obtain ⟨i, x⟩ := e
+    by_cases hi : i = b
+    · subst hi
+      have : (b' == i) = false := by simpa using hne
+      simp [List.filter_cons, List.lookup_cons, this, ih]
+    · have : (i != b) = true := by simpa using hi
+      simp only [List.filter_cons, this, if_true, List.lookup_cons, ih]
+
+/-- **Batch handles are independent, also finished ones.**  Whatever is done with batch handle `b` —
+Set, Delete, Cancel, Commit, and in particular any of these *after* `b` has already been committed or
+cancelled (the usual `defer b.Cancel()`, a re-used handle, a second Commit) — no other batch `b'`
+changes: neither its pending operations nor its realm / wrappers.  Set, Delete and Cancel do not touch
+the store either.  (What a second `Commit` of `b` applies is, by `C04_batch_last_wins`, again the last
+call per key of `b`'s own log, which `Commit` keeps and `Cancel` empties.) -/
+theorem C04_batch_handles_independent (s : St) (b b' : Nat) (hne : b' ≠ b) (k x : Bytes) (final : Bool) :
+    (step s (.bset b k x)).1.batches.lookup b' = s.batches.lookup b' ∧
+    (step s (.bdel b k)).1.batches.lookup b' = s.batches.lookup b' ∧
+    (step s (.cancel b)).1.batches.lookup b' = s.batches.lookup b' ∧
+    (step s (.commit b final)).1.batches.lookup b' = s.batches.lookup b' ∧
+    (step s (.bset b k x)).1.db = s.db ∧ (step s (.bdel b k)).1.db = s.db ∧ (step s (.cancel b)).1.db = s.db := by
+  have hb : (b' == b) = false := by simpa using hne
+  simp only [step, onBatch]
+  cases hl : s.batches.lookup b with
+  | none => simp
+  | some bt =>
+    simp only [List.lookup_cons, hb]
+    refine ⟨trivial, trivial, trivial, ?_, trivial, trivial, trivial⟩
+    cases final
+    · simp
+    · simp [lookup_filter_ne _ _ _ hne]
+
 /-- The requests that the statement says must fail once the store is closed: every read, write,
 iteration, view creation, batch creation, Flush and batch Commit. -/
 def needsOpen : Op → Bool
